@@ -40,62 +40,124 @@ def runRows (run : Int × Int) : List Int := span (min run.1 run.2) (max run.1 r
 theorem runCells_eq (c : Int) (run : Int × Int) : runCells c run = (runRows run).map (fun r => (c, r)) := by
   simp [runCells, runRows, span, rowsUpTo_eq]
 
-/-- the run loop on strictly ascending rows covers exactly those rows, in order -/
-theorem squashGo_ascending : ∀ (xs : List Int) (l r : Int), l ≤ r →
-    (r :: xs).Pairwise (· < ·) →
-    (squashGo l r xs).flatMap runRows = span l r ++ xs := by
+theorem mem_span_succ (l r y : Int) (h : l ≤ r) : y ∈ span l (r + 1) ↔ y ∈ span l r ∨ y = r + 1 := by
+  rw [span_succ l r h]; simp
+
+/-- the run loop on rows in ascending order (duplicates allowed) covers exactly those rows -/
+theorem mem_squashGo : ∀ (xs : List Int) (l r : Int), l ≤ r → (r :: xs).Pairwise (· ≤ ·) → ∀ y,
+    (y ∈ (squashGo l r xs).flatMap runRows ↔ y ∈ span l r ∨ y ∈ xs) := by
   intro xs
   induction xs with
   | nil =>
-    intro l r h _
+    intro l r h _ y
     simp [squashGo, runRows, Int.min_eq_left h, Int.max_eq_right h]
   | cons x xs ih =>
-    intro l r h hp
-    have hrx : r < x := by
-      have := (List.pairwise_cons.1 hp).1 x (by simp)
-      exact this
-    have hp' : (x :: xs).Pairwise (· < ·) := (List.pairwise_cons.1 hp).2
+    intro l r h hp y
+    have hrx : r ≤ x := (List.pairwise_cons.1 hp).1 x (by simp)
+    have hp' : (x :: xs).Pairwise (· ≤ ·) := (List.pairwise_cons.1 hp).2
     unfold squashGo
     by_cases hg : x - r > 1
-    · simp only [hg, if_true, List.flatMap_cons]
-      rw [ih x x (Int.le_refl x) hp', span_self]
+    · simp only [hg, if_true, List.flatMap_cons, List.mem_append]
+      rw [ih x x (Int.le_refl x) hp' y, span_self]
       simp [runRows, Int.min_eq_left h, Int.max_eq_right h]
     · simp only [hg, if_false]
-      have hx : x = r + 1 := by omega
-      rw [ih l x (by omega) hp', hx, span_succ l r h]
-      simp
+      rw [ih l x (by omega) hp' y]
+      have hx : x = r ∨ x = r + 1 := by omega
+      rcases hx with e | e
+      · subst e
+        simp only [List.mem_cons]
+        constructor
+        · intro h'; rcases h' with a | a
+          · exact Or.inl a
+          · exact Or.inr (Or.inr a)
+        · intro h'; rcases h' with a | a | a
+          · exact Or.inl a
+          · subst a
+            left
+            have : y ∈ span l y ∨ y = y := Or.inr rfl
+            by_cases hl : l = y
+            · subst hl; rw [span_self]; simp
+            · have h2 : l ≤ y - 1 := by omega
+              have := (mem_span_succ l (y - 1) y h2).2 (Or.inr (by omega))
+              have e2 : y - 1 + 1 = y := by omega
+              rw [e2] at this; exact this
+          · exact Or.inr a
+      · subst e
+        simp only [List.mem_cons, mem_span_succ l r y h]
+        constructor
+        · intro h'; rcases h' with (a | a) | a
+          · exact Or.inl a
+          · exact Or.inr (Or.inl a)
+          · exact Or.inr (Or.inr a)
+        · intro h'; rcases h' with a | a | a
+          · exact Or.inl (Or.inl a)
+          · exact Or.inl (Or.inr a)
+          · exact Or.inr a
 
-theorem squashRows_ascending (rows : List Int) (hp : rows.Pairwise (· < ·)) :
-    (squashRows rows).flatMap runRows = rows := by
+theorem mem_squashRows (rows : List Int) (hp : rows.Pairwise (· ≤ ·)) (y : Int) :
+    y ∈ (squashRows rows).flatMap runRows ↔ y ∈ rows := by
   cases rows with
-  | nil => rfl
+  | nil => simp [squashRows]
   | cons x xs =>
     unfold squashRows
-    rw [squashGo_ascending xs x x (Int.le_refl x) hp, span_self]
-    rfl
+    rw [mem_squashGo xs x x (Int.le_refl x) hp y, span_self]
+    simp
 
-/-! erasing cells -/
+/-! sorting -/
 
-theorem mem_eraseCells (del cells : List Cell) (hn : cells.Nodup) (a : Cell) :
-    a ∈ eraseCells cells del ↔ a ∈ cells ∧ a ∉ del := by
-  unfold eraseCells
-  induction del generalizing cells with
-  | nil => simp
-  | cons d ds ih =>
-    simp only [List.foldl_cons]
-    rw [ih (cells.erase d) (hn.erase d), hn.mem_erase_iff]
-    simp only [List.mem_cons, not_or]
-    constructor
-    · intro ⟨⟨h1, h2⟩, h3⟩; exact ⟨h2, h1, h3⟩
-    · intro ⟨h1, h2, h3⟩; exact ⟨⟨h2, h1⟩, h3⟩
+theorem mem_insertInt (x y : Int) (l : List Int) : y ∈ insertInt x l ↔ y = x ∨ y ∈ l := by
+  induction l with
+  | nil => simp [insertInt]
+  | cons a t ih =>
+    unfold insertInt
+    by_cases h : x ≤ a
+    · simp [h]
+    · simp only [h, if_false, List.mem_cons, ih]
+      constructor
+      · intro h'; rcases h' with e | e | e
+        · exact Or.inr (Or.inl e)
+        · exact Or.inl e
+        · exact Or.inr (Or.inr e)
+      · intro h'; rcases h' with e | e | e
+        · exact Or.inr (Or.inl e)
+        · exact Or.inl e
+        · exact Or.inr (Or.inr e)
 
-theorem eraseCells_sublist (del cells : List Cell) : (eraseCells cells del).Sublist cells := by
-  unfold eraseCells
-  induction del generalizing cells with
-  | nil => exact List.Sublist.refl _
-  | cons d ds ih =>
-    simp only [List.foldl_cons]
-    exact List.Sublist.trans (ih (cells.erase d)) (List.erase_sublist)
+theorem sorted_insertInt (x : Int) (l : List Int) (hl : l.Pairwise (· ≤ ·)) : (insertInt x l).Pairwise (· ≤ ·) := by
+  induction l with
+  | nil => simp [insertInt]
+  | cons a t ih =>
+    unfold insertInt
+    have ha := (List.pairwise_cons.1 hl)
+    by_cases h : x ≤ a
+    · simp only [h, if_true]
+      refine List.pairwise_cons.2 ⟨?_, hl⟩
+      intro b hb
+      simp only [List.mem_cons] at hb
+      rcases hb with e | e
+      · subst e; exact h
+      · exact Int.le_trans h (ha.1 b e)
+    · simp only [h, if_false]
+      refine List.pairwise_cons.2 ⟨?_, ih ha.2⟩
+      intro b hb
+      rcases (mem_insertInt x b t).1 hb with e | e
+      · subst e; omega
+      · exact ha.1 b e
+
+theorem mem_sortInts (l : List Int) (y : Int) : y ∈ sortInts l ↔ y ∈ l := by
+  induction l with
+  | nil => simp [sortInts]
+  | cons a t ih =>
+    simp only [sortInts, List.foldr_cons] at ih ⊢
+    rw [mem_insertInt, ih]
+    simp
+
+theorem sorted_sortInts (l : List Int) : (sortInts l).Pairwise (· ≤ ·) := by
+  induction l with
+  | nil => simp [sortInts]
+  | cons a t ih =>
+    simp only [sortInts, List.foldr_cons] at ih ⊢
+    exact sorted_insertInt a _ ih
 
 theorem mem_dedup (l : List Int) (a : Int) : a ∈ dedup l ↔ a ∈ l := by
   induction l with
@@ -112,15 +174,6 @@ theorem mem_dedup (l : List Int) (a : Int) : a ∈ dedup l ↔ a ∈ l := by
         · exact e
     · simp [h, ih]
 
-/-- a rule whose sqref lists every cell once and, inside each column, with increasing rows
-(a single range, disjoint areas written top to bottom, anything `squashSqref` produced) -/
-def Clean (cells : List Cell) : Prop :=
-  cells.Nodup ∧ ∀ c, (colRows cells c).Pairwise (· < ·)
-
-theorem colRows_sublist (a b : List Cell) (h : a.Sublist b) (c : Int) : (colRows a c).Sublist (colRows b c) := by
-  unfold colRows
-  exact (h.filter _).map _
-
 theorem mem_colRows (cells : List Cell) (c r : Int) : r ∈ colRows cells c ↔ (c, r) ∈ cells := by
   unfold colRows
   simp only [List.mem_map, List.mem_filter, beq_iff_eq]
@@ -131,42 +184,65 @@ theorem mem_colRows (cells : List Cell) (c r : Int) : r ∈ colRows cells c ↔ 
     subst hc; subst hr; exact hp
   · intro h; exact ⟨(c, r), ⟨h, rfl⟩, rfl⟩
 
-/-- the rewritten rule of a clean rule denotes exactly its cells outside the deleted range -/
-theorem mem_rewriteRule (cells del : List Cell) (hc : Clean cells) (a : Cell) :
+theorem mem_removeCells (cells del : List Cell) (a : Cell) : a ∈ removeCells cells del ↔ a ∈ cells ∧ a ∉ del := by
+  simp [removeCells]
+
+/-- the rewritten rule denotes exactly the rule's cells outside the deleted range — for EVERY
+rule (overlapping areas, any order of the areas) -/
+theorem mem_rewriteRule (cells del : List Cell) (a : Cell) :
     a ∈ rewriteRule cells del ↔ a ∈ cells ∧ a ∉ del := by
   obtain ⟨ac, ar⟩ := a
   unfold rewriteRule
-  simp only [List.mem_flatMap]
-  have hsq : ∀ c, (squashRows (colRows (eraseCells cells del) c)).flatMap (runCells c) =
-      (colRows (eraseCells cells del) c).map (fun r => (c, r)) := by
-    intro c
-    have hp : (colRows (eraseCells cells del) c).Pairwise (· < ·) :=
-      List.Pairwise.sublist (colRows_sublist _ _ (eraseCells_sublist del cells) c) (hc.2 c)
-    have := squashRows_ascending _ hp
-    have h2 : (squashRows (colRows (eraseCells cells del) c)).flatMap (runCells c) =
-        ((squashRows (colRows (eraseCells cells del) c)).flatMap runRows).map (fun r => (c, r)) := by
-      rw [List.map_flatMap]
-      congr 1
-      funext run
-      exact runCells_eq c run
-    rw [h2, this]
-  constructor
-  · intro ⟨c, hcm, run, hrun, hin⟩
-    have : (ac, ar) ∈ (squashRows (colRows (eraseCells cells del) c)).flatMap (runCells c) :=
-      List.mem_flatMap.2 ⟨run, hrun, hin⟩
-    rw [hsq c] at this
-    simp only [List.mem_map] at this
-    obtain ⟨r, hr, e⟩ := this
-    injection e with e1 e2
-    subst e1; subst e2
-    exact (mem_eraseCells del cells hc.1 _).1 ((mem_colRows _ _ _).1 hr)
-  · intro h
-    have hmem := (mem_eraseCells del cells hc.1 (ac, ar)).2 h
-    have hcol : ac ∈ dedup (cells.map (·.1)) := (mem_dedup _ _).2 (List.mem_map.2 ⟨(ac, ar), h.1, rfl⟩)
-    have : (ac, ar) ∈ (squashRows (colRows (eraseCells cells del) ac)).flatMap (runCells ac) := by
-      rw [hsq ac]
-      exact List.mem_map.2 ⟨ar, (mem_colRows _ _ _).2 hmem, rfl⟩
-    obtain ⟨run, hrun, hin⟩ := List.mem_flatMap.1 this
-    exact ⟨ac, hcol, run, hrun, hin⟩
+  by_cases hh : hits cells del = true
+  · simp only [hh, Bool.not_true, Bool.false_eq_true, if_false, List.mem_flatMap]
+    have hsq : ∀ c y, (c, y) ∈ (squashRows (sortInts (colRows (removeCells cells del) c))).flatMap (runCells c) ↔
+        (c, y) ∈ removeCells cells del := by
+      intro c y
+      have h2 : (squashRows (sortInts (colRows (removeCells cells del) c))).flatMap (runCells c) =
+          ((squashRows (sortInts (colRows (removeCells cells del) c))).flatMap runRows).map (fun r => (c, r)) := by
+        rw [List.map_flatMap]
+        congr 1
+        funext run
+        exact runCells_eq c run
+      rw [h2]
+      simp only [List.mem_map]
+      constructor
+      · intro ⟨r, hr, e⟩
+        injection e with _ e2
+        subst e2
+        rw [mem_squashRows _ (sorted_sortInts _), mem_sortInts, mem_colRows] at hr
+        exact hr
+      · intro h
+        exact ⟨y, by rw [mem_squashRows _ (sorted_sortInts _), mem_sortInts, mem_colRows]; exact h, rfl⟩
+    constructor
+    · intro ⟨c, _, run, hrun, hin⟩
+      have hm : (ac, ar) ∈ (squashRows (sortInts (colRows (removeCells cells del) c))).flatMap (runCells c) :=
+        List.mem_flatMap.2 ⟨run, hrun, hin⟩
+      have hc : ac = c := by
+        rw [runCells_eq] at hin
+        simp only [List.mem_map] at hin
+        obtain ⟨r, _, e⟩ := hin
+        injection e with e1 _
+        exact e1.symm
+      subst hc
+      exact (mem_removeCells cells del _).1 ((hsq ac ar).1 hm)
+    · intro h
+      have hm := (hsq ac ar).2 ((mem_removeCells cells del (ac, ar)).2 h)
+      obtain ⟨run, hrun, hin⟩ := List.mem_flatMap.1 hm
+      refine ⟨ac, ?_, run, hrun, hin⟩
+      rw [mem_sortInts, mem_dedup]
+      exact List.mem_map.2 ⟨(ac, ar), h.1, rfl⟩
+  · have hh' : hits cells del = false := by simpa using hh
+    simp only [hh', Bool.not_false, if_true]
+    constructor
+    · intro h
+      refine ⟨h, ?_⟩
+      intro hd
+      have : hits cells del = true := by
+        unfold hits
+        simp only [List.any_eq_true]
+        exact ⟨(ac, ar), h, by simpa using hd⟩
+      rw [hh'] at this; cases this
+    · intro h; exact h.1
 
 end XlModel.DvDelete
